@@ -115,11 +115,19 @@ Proof.
   destruct (Nat.eqb j i) eqn:E; cbn [negb]; [exact IH|]. cbn [held]. rewrite E. exact IH.
 Qed.
 
-Lemma set_store_Inv_P0 st s : t_ph st = P0 -> Inv st -> Inv (set_store st s).
+Lemma set_store_Inv st s : t_ph st = P0 \/ t_ph st = P2 -> Inv st -> Inv (set_store st s).
 Proof.
-  intros E [[Hfl Hp] Hc]. rewrite E in Hp. destruct Hp as (Hcs & Hl). split.
-  - split; [exact Hfl|]. cbn. rewrite E. auto.
-  - cbn [set_store t_cons]. rewrite Hcs. constructor.
+  intros E [[Hfl Hp] Hc]. destruct E as [E|E]; rewrite E in Hp.
+  - destruct Hp as (Hcs & Hl). split.
+    + split; [exact Hfl|]. cbn. rewrite E, Hcs. auto.
+    + cbn [set_store t_cons]. rewrite Hcs. constructor.
+  - destruct Hp as (Hls & Hfly & Hl). split.
+    + split; [exact Hfl|]. cbn. rewrite E. auto.
+    + cbn [set_store t_cons]. apply Forall_map. eapply Forall_impl; [|exact Hc].
+      intros c Hci. unfold cinv, add_start in *. destruct (c_fin c) eqn:Ef.
+      * rewrite Ef. exact Hci.
+      * cbn [c_fin c_out c_iy c_start c_p0 set_store t_ph t_store t_np]. rewrite E in *.
+        destruct Hci as (Ho & Hi & Hs & Hn). rewrite Hs. auto.
 Qed.
 
 Lemma gstep_GInv gs l : GInv gs -> gok_label gs l = true -> GInv (gstep gs l).
@@ -140,9 +148,8 @@ Proof.
     rewrite Forall_forall in Hh. now apply Hh.
   - cbn [g_st g_hold]. split; [|exact Hh]. now apply step_inv.
   - cbn [g_st g_hold]. split; [|exact Hh]. now apply step_inv.
-  - cbn [gok_label] in Hok. destruct (t_ph (g_st gs)) eqn:E; cbn [g_st g_hold]; split; try assumption.
-    + now apply set_store_Inv_P0.
-    + discriminate Hok.
+  - destruct (t_ph (g_st gs)) eqn:E; cbn [g_st g_hold]; split; try assumption;
+      apply set_store_Inv; auto.
 Qed.
 
 Lemma gsched_GInv sched : forall gs, GInv gs -> gok_sched gs sched = true -> GInv (grun gs sched).
@@ -261,7 +268,8 @@ Proof.
   - unfold Wg. cbn [g_st g_loop]. auto.
   - unfold Wg. cbn [g_st g_loop tstep ains t_ph t_loaded t_cons]. auto.
   - unfold Wg. cbn [g_st g_loop tstep asto t_ph t_loaded t_cons]. auto.
-  - destruct (t_ph (g_st gs)) eqn:E; unfold Wg; cbn [g_st g_loop set_store t_ph t_loaded t_cons]; rewrite ?E; auto.
+  - destruct (t_ph (g_st gs)) eqn:E; unfold Wg; cbn [g_st g_loop set_store t_ph t_loaded t_cons]; rewrite ?E; auto;
+      (split; [discriminate|]); split; intros Hl; discriminate (H1 Hl).
 Qed.
 
 Lemma grun_Wg sched : forall gs, Wg gs -> Wg (grun gs sched).
